@@ -170,4 +170,30 @@ example :
     Account.lockedUpVested, Account.vested, Account.unlocked, readSchedule, readLoop, Amt.allLE, anyTo, Amt.add,
     Amt.min, Amt.sub, Amt.zero, bankDebit]
 
+/-- **becoming a plain account loses nothing**: when the conversion back is accepted at time t, the locked amount of the
+    vesting account is zero at t and at every later time, whatever is delegated — forgetting the schedules removes no
+    restriction -/
+theorem unconvert_loses_nothing (M : Nat) (a : Account) (hv : AccValid a) (t t' : Int) (h : t ≤ t') (d : Nat) (hd : d < M)
+    (hg : unconvertGuard M a t = true) : a.lockedCoins M t' d = 0 := by
+  simp only [unconvertGuard, Bool.and_eq_true, Amt.isZero_iff] at hg
+  have h1 := hg.1 d hd
+  have h2 := hg.2 d hd
+  have hmono := (locked_antitone M a hv t t' h d hd).1
+  rw [locked_eq_max M a hv t d hd] at hmono
+  have hvest := read_le_total a.start a.endT a.vesting a.original t d hv.vesting
+  have hlock := read_le_total a.start a.endT a.lockup a.original t d hv.lockup
+  simp only [Account.unvested, Account.lockedUp, Account.unlockedVested, Account.vested, Account.unlocked,
+    Amt.sub_apply, Amt.min_apply] at *
+  omega
+/-- the bank's LockedCoins is not the right test: with everything vested, the lockup still running and all of it
+    delegated, LockedCoins reads zero (delegated coins are not counted), yet the grant is locked up — the guard
+    refuses; an account made plain at that point could undelegate and spend 100 locked coins -/
+theorem bank_locked_is_not_the_test :
+    let amt (x : Nat) : Amt := fun d => if d = 0 then x else 0
+    let a : Account := { (newAccount 7 1000 (amt 100) [⟨7000000, amt 100⟩] [⟨0, amt 100⟩]) with delegatedFree := amt 100 }
+    a.lockedCoins 1 1005 0 = 0 ∧ unconvertGuard 1 a 1005 = false ∧
+    ({ a with delegatedFree := amt 0 } : Account).lockedCoins 1 1005 0 = 100 := by
+  simp [newAccount, alignSchedules, alignFirst, totalLength, Account.lockedCoins, Account.unlockedVested,
+    Account.lockedUpVested, Account.vested, Account.unlocked, Account.unvested, Account.lockedUp, unconvertGuard,
+    readSchedule, readLoop, Amt.allLE, Amt.isZero, anyTo, Amt.add, Amt.min, Amt.sub, Amt.zero]
 end Haqq.Vest
